@@ -125,12 +125,14 @@ def struct_derives(c):
     return d
 
 
-def gen_enum(rng, cid, nvar, force=None, fwd=()):
+def gen_enum(rng, cid, nvar, force=None, fwd=(), arity=None):
     names = rng.sample(VARIANT_NAMES, nvar)
     vs = []
     for i in range(nvar):
         shape = force[i] if force else rng.choice(["tuple", "named", "unit", "tuple", "named"])
         n = 0 if shape == "unit" else rng.choice([0, 1, 1, 2, 2, 3]) if not force else rng.choice([1, 2, 3])
+        if arity is not None and shape != "unit":
+            n = arity
         vs.append({"name": names[i], "shape": shape, "fields": gen_fields(rng, shape, n), "attrs": []})
     fwd = [t for t in MUL_LIKE if t in fwd]
     # `#[mul(forward)]` is what makes a Mul-like derive applicable to an enum (mul_like.rs:14-20)
@@ -153,6 +155,8 @@ def tag_ctor(c, tag):
 
 
 def ty_text(c, tag):
+    if tag in c.get("tytext", {}):
+        return c["tytext"][tag]
     return c["generic"].get(tag, tag_ctor(c, tag))
 
 
@@ -183,10 +187,57 @@ def fields_rust(c, shape, fields):
     return " { " + ", ".join(one(f) for f in fields) + " }"
 
 
+def gen_of(c):
+    """generic parameters / where-clause of a declaration:
+    {"params": [("lt", "'a") | ("ty", "A", ["Clone"]) | ("const", "const N: usize")], "where": ["A: Copy"]}"""
+    if c.get("gen"):
+        return c["gen"]
+    return {"params": [("ty", c["generic"][t], []) for t in sorted(c.get("generic", {}))], "where": []}
+
+
 def generics_rust(c):
-    if not c["generic"]:
+    ps = gen_of(c)["params"]
+    if not ps:
         return ""
-    return "<" + ", ".join(c["generic"][t] for t in sorted(c["generic"])) + ">"
+
+    def one(p):
+        if p[0] == "ty":
+            return p[1] + ((": " + " + ".join(p[2])) if p[2] else "")
+        return p[1]
+    return "<" + ", ".join(one(p) for p in ps) + ">"
+
+
+def ty_generics_rust(c):
+    """the names only, as `split_for_impl().1` prints them"""
+    ps = gen_of(c)["params"]
+    if not ps:
+        return ""
+
+    def one(p):
+        if p[0] == "lt":
+            return p[1].split(":")[0].strip()
+        if p[0] == "const":
+            return p[1].split(":")[0].replace("const", "").strip()
+        return p[1]
+    return "<" + ", ".join(one(p) for p in ps) + ">"
+
+
+def where_rust(c):
+    w = gen_of(c)["where"]
+    return (" where " + ", ".join(w)) if w else ""
+
+
+def generics_coq(c):
+    g = gen_of(c)
+    ps = []
+    for p in g["params"]:
+        if p[0] == "lt":
+            ps.append("GLifetime %s" % coq_str(p[1]))
+        elif p[0] == "ty":
+            ps.append("GType %s [%s]" % (coq_str(p[1]), "; ".join(coq_str(b) for b in p[2])))
+        else:
+            ps.append("GConst %s" % coq_str(p[1]))
+    return "{| g_params := [%s]; g_where := [%s] |}" % ("; ".join(ps), "; ".join(coq_str(w) for w in g["where"]))
 
 
 def item_rust(c, name=None):
@@ -197,10 +248,12 @@ def item_rust(c, name=None):
         return at + "union %s { x: u32, y: u32 }" % name
     if c["kind"] == "struct":
         body = fields_rust(c, c["shape"], c["fields"])
-        return at + "struct %s%s%s%s" % (name, generics_rust(c), body, "" if c["shape"] == "named" else ";")
+        if c["shape"] == "named":
+            return at + "struct %s%s%s%s" % (name, generics_rust(c), where_rust(c), body)
+        return at + "struct %s%s%s%s;" % (name, generics_rust(c), body, where_rust(c))
     vs = ", ".join("".join(attr_rust(a) + " " for a in v.get("attrs", [])) + v["name"] +
                    fields_rust(c, v["shape"], v["fields"]) for v in c["variants"])
-    return at + "enum %s%s { %s }" % (name, generics_rust(c), vs)
+    return at + "enum %s%s%s { %s }" % (name, generics_rust(c), where_rust(c), vs)
 
 
 # ---- rendering: Coq
@@ -361,7 +414,7 @@ class Render:
         sc = im["im_scalar"]
         tr = root + self.trait + ("<__RhsT>" if sc != "None" else "")
         scalar = None if sc == "None" else ("__RhsT:derive_more::core::marker::Copy" if sc[1] == "true" else "__RhsT")
-        ty = self.name + nows(generics_rust(self.c))
+        ty = self.name + nows(ty_generics_rust(self.c))
         out = {"OutSelf": (ty, ty), "OutNone": (None, None), "OutSelfKw": (None, "Self"),
                "OutResultBinary": ("derive_more::core::result::Result<%s,derive_more::BinaryError>" % ty,) * 2,
                "OutResultUnit": ("derive_more::core::result::Result<%s,derive_more::UnitError>" % ty,) * 2}[im["im_output"]]
@@ -369,6 +422,50 @@ class Render:
             ["#[automatically_derived]"]
         return {"trait": nows(tr), "scalar_param": scalar, "method": py_str(im["im_method"]), "output": out,
                 "body": nows(self.body()), "attrs": attrs}
+
+
+def render_header(c, name, h):
+    """the model's impl header -> (params, where) as whitespace-free token strings"""
+    def bound(b):
+        k = b[0]
+        if k == "BOrig":
+            return nows(py_str(b[1]))
+        if k == "BOpOutput":
+            return "derive_more::core::ops::%s<Output=%s>" % (py_str(b[1]), py_str(b[2]))
+        if k == "BOp":
+            return "derive_more::core::ops::%s" % py_str(b[1])
+        return "derive_more::with_trait::%s" % py_str(b[1])
+    params = []
+    for p in h["h_params"]:
+        k = p[0]
+        if k in ("OLifetime", "OConst"):
+            params.append(nows(py_str(p[1])))
+        elif k == "OType":
+            params.append(py_str(p[1]) + ((":" + "+".join(bound(b) for b in p[2])) if p[2] else ""))
+        else:
+            params.append("__RhsT:derive_more::core::marker::Copy" if p[1] == "true" else "__RhsT")
+    me = name + nows(ty_generics_rust(c))
+    scalar, rest = [], []
+    for w in h["h_where"]:
+        k = w[0]
+        if k == "WOrig":
+            rest.append(nows(py_str(w[1])))
+        elif k == "WScalarOut":
+            ty = nows(ty_text(c, w[1]))
+            scalar.append("%s:derive_more::with_trait::%s<__RhsT,Output=%s>" % (ty, py_str(w[2]), ty))
+        elif k == "WScalar":
+            scalar.append("%s:derive_more::with_trait::%s<__RhsT>" % (nows(ty_text(c, w[1])), py_str(w[2])))
+        else:
+            rest.append("%s:derive_more::core::ops::%s<Output=%s>" % (me, py_str(w[1]), me))
+    # the per-field-type predicates come out of a HashSet: compared as a set, in front of the others
+    return {"params": params, "where": sorted(scalar) + rest, "n_scalar": len(scalar)}
+
+
+def real_header(r, n_scalar):
+    it = r["items"][0]
+    w = [nows(x) for x in it["where"]]
+    return {"params": [nows(x) for x in it["params"]],
+            "where": sorted(w[:n_scalar]) + w[n_scalar:], "n_scalar": n_scalar}
 
 
 def real_summary(r, is_fold):
@@ -630,11 +727,22 @@ def oracle_enum(c, key, tr, i, j):
 # ---- the same observations from the Coq model (free term algebra)
 
 def model_exprs(c):
+    """one Gallina expression per case: the list of all its observations.  Operand values and scalars are
+    let-bound once (elaborating the same literal dozens of times dominated the cost)."""
     I = input_coq(c)
+    lets = []
+    names = {}
+
+    def bind(lit_, ty="(ctor * list (list N))"):
+        if (lit_, ty) not in names:
+            names[(lit_, ty)] = "v%d" % len(names)
+            lets.append((names[(lit_, ty)], ty, lit_))
+        return names[(lit_, ty)]
     out = []
     if c["kind"] == "struct":
         fs = c["fields"]
-        V = {l: val_coq(None, leaves(fs, l)) for l in "abc"}
+        V = {l: bind(val_coq(None, leaves(fs, l))) for l in "abc"}
+        L = {l: bind("[%s]" % "; ".join(coq_str(s) for s in leaves(fs, l)), "list (list N)") for l in "abc"}
         for (key, tr, kind, x) in struct_ops(c):
             T = "T" + tr
             if kind == "bin":
@@ -642,25 +750,28 @@ def model_exprs(c):
             elif kind == "asg":
                 out.append("free_assign %s I %s (Some %s) None" % (T, V["a"], V["b"]))
             elif kind == "sca":
-                out.append("free_run %s I %s None (Some %s)" % (T, V["a"], coq_str(SCALAR_VAL[x][1])))
+                out.append("free_run %s I %s None (Some %s)" % (T, V["a"], bind(coq_str(SCALAR_VAL[x][1]), "list N")))
             elif kind == "sas":
-                out.append("free_assign %s I %s None (Some %s)" % (T, V["a"], coq_str(SCALAR_VAL[x][1])))
+                out.append("free_assign %s I %s None (Some %s)" % (T, V["a"], bind(coq_str(SCALAR_VAL[x][1]), "list N")))
             elif kind == "una":
                 out.append("free_run %s I %s None None" % (T, V["a"]))
             else:
                 fop = "Add" if tr == "Sum" else "Mul"
-                xs = "; ".join("[%s]" % "; ".join(coq_str(s) for s in leaves(fs, l)) for l in "abc"[:x])
-                out.append("free_fold %s %s I [%s]" % (T, "true" if fop in c["custom"] else "false", xs))
+                out.append("free_fold %s %s I [%s]" % (T, "true" if fop in c["custom"] else "false",
+                                                       "; ".join(L[l] for l in "abc"[:x])))
     else:
         for (key, tr, i, j) in enum_ops(c):
             vi = c["variants"][i]
-            a = val_coq(vi["name"], leaves(vi["fields"], "a"))
+            a = bind(val_coq(vi["name"], leaves(vi["fields"], "a")))
             if j is None:
                 out.append("free_run T%s I %s None None" % (tr, a))
             else:
                 vj = c["variants"][j]
-                out.append("free_run T%s I %s (Some %s) None" % (tr, a, val_coq(vj["name"], leaves(vj["fields"], "b"))))
-    return "let I := %s in [%s]" % (I, "; ".join(out))
+                out.append("free_run T%s I %s (Some %s) None" % (tr, a, bind(val_coq(vj["name"], leaves(vj["fields"], "b")))))
+    # NB: a beta-redex, not nested `let`s - vm_compute in Coq 8.16 is exponential in the depth of nested lets
+    binds = [("I", "input", I)] + lets
+    return "(fun %s => [%s]) %s" % (" ".join("(%s : %s)" % (n, t) for (n, t, _) in binds), "; ".join(out),
+                                    " ".join("(%s)" % v for (_, _, v) in binds))
 
 
 # ------------------------------------------------------------------ case generation
@@ -733,6 +844,9 @@ def gen_cases(rng, tier):
     for k1 in kinds:
         for k2 in kinds:
             add(gen_enum(rng, None, 2, force=[k1, k2], fwd=MUL_LIKE))
+    # zero-field variants `V()` / `V{}` are not unit variants: same-variant pairs are Ok, Not/Neg stays infallible
+    add(gen_enum(rng, None, 3, force=["tuple", "named", "unit"], fwd=MUL_LIKE, arity=0))
+    add(gen_enum(rng, None, 2, force=["tuple", "named"], arity=0))
     n_enum = 110 if tier == "quick" else 1000
     for _ in range(n_enum):
         add(gen_enum(rng, None, rng.choice([1, 2, 2, 3, 3, 4, 4, 5] + ([6, 7] if big else [])),
@@ -769,6 +883,27 @@ def gen_static_cases(rng, tier):
                 l.append({"name": rng.choice(names), "meta": rng.choice(ATTR_METAS)})
             return l
         c["attrs"] = some_attrs(0.55)
+        if c["kind"] != "union" and rng.random() < 0.45:
+            # generic parameters of every kind, declaration bounds and a where-clause (in-process only: nothing here
+            # has to type-check)
+            lts = rng.sample(["'a", "'b", "'b: 'a"], rng.randrange(0, 3))
+            if "'b: 'a" in lts and "'b" in lts:
+                lts.remove("'b")
+            letters = rng.sample("ABCD", rng.randrange(0, 4))
+            consts = rng.sample(["const N: usize", "const FLAG: bool"], rng.randrange(0, 3))
+            tys = [("ty", l, rng.sample(["Clone", "core::fmt::Debug", "Copy", "'static"], rng.randrange(0, 3))) for l in letters]
+            order = [("lt", l) for l in lts] + (tys + [("const", k) for k in consts] if rng.random() < 0.8
+                                                 else [("const", k) for k in consts] + tys)
+            where = rng.sample(["T0: Clone", "u8: Copy"] + ["%s: Default" % l for l in letters], rng.randrange(0, 3))
+            c["gen"] = {"params": order, "where": where}
+            tags = rng.sample(range(NTAGS), min(NTAGS, len(letters)))
+            c["generic"] = {t: l for t, l in zip(tags, letters)}
+            c["tytext"] = {}
+            free = [t for t in range(NTAGS) if t not in c["generic"]]
+            if free and lts and rng.random() < 0.6:
+                c["tytext"][free[0]] = "&%s T%d" % (lts[0].split(":")[0].strip(), free[0])
+            if len(free) > 1 and "const N: usize" in consts and rng.random() < 0.6:
+                c["tytext"][free[1]] = "[T%d; N]" % free[1]
         if c["kind"] == "enum" and tr in MUL_LIKE and rng.random() < 0.5:
             c["attrs"] = [{"name": STD[tr], "meta": rng.choice([["forward"], [["not", ["forward"]], "forward"]])}]
         if c["kind"] == "struct" and rng.random() < 0.25:
@@ -937,10 +1072,20 @@ def run(tier, seed, replay):
                                                  "python": (STD[tr], EXPANDER[tr])},
                           "trait -> expander / std method tables disagree for %s" % tr)
 
-    exprs = ["derive ascii_lower T%s %s" % (tr, input_coq(c)) for (tr, c) in pre_idx]
-    terms = common.coq_eval(["Verif.C10.Model"], exprs, batch=120)
+    # one evaluation per declaration: all its derives at once
+    groups = []
+    for k, (tr, c) in enumerate(pre_idx):
+        if groups and groups[-1][0] is c:
+            groups[-1][1].append(tr)
+        else:
+            groups.append((c, [tr]))
+    exprs = ["(fun (I : input) (G : generics) => [%s]) (%s) (%s)" %
+             ("; ".join("(derive ascii_lower T%s I, derive_header ascii_lower T%s G I)" % (tr, tr) for tr in trs),
+              input_coq(c), generics_coq(c))
+             for (c, trs) in groups]
+    terms = [t for g in common.coq_eval(["Verif.C10.Model"], exprs, batch=12) for t in g]
     n_tie1 = 0
-    for (tr, c), r, t in zip(pre_idx, pre, terms):
+    for (tr, c), r, (t, hdr) in zip(pre_idx, pre, terms):
         mo = model_outcome(t)
         ro = real_outcome(r)
         is_static = "derives" not in c
@@ -966,6 +1111,15 @@ def run(tier, seed, replay):
                           "the model's expansion of derive(%s) on `%s` differs from the real one in %s" %
                           (tr, item_rust(c), sorted(diff)))
             continue
+        # the impl header: generic parameters (their order, the added bounds, __RhsT) and the where-clause
+        mh = render_header(c, name, hdr[1])
+        rh = real_header(r, mh["n_scalar"])
+        chk.bump("header:%s:%s" % (EXPANDER[tr], "generic" if gen_of(c)["params"] else "plain"))
+        if mh != rh:
+            chk.violation("tie-expansion-header", dict(rep, model=mh, real=rh),
+                          "the model's impl header (generic parameters / where-clause) of derive(%s) on `%s` differs "
+                          "from the real one: %s vs %s" % (tr, item_rust(c), mh, rh))
+            continue
         # oracle on the expansion itself: the method is std's
         if rs["method"] != STD[tr]:
             chk.violation("method-name", dict(rep, method=rs["method"], std=STD[tr]),
@@ -974,7 +1128,7 @@ def run(tier, seed, replay):
     chk.log("tie 1: %d expansions compared (model tokens vs in-process expander)" % n_tie1)
 
     # ---- model observations for the run-time cases
-    mterms = common.coq_eval(["Verif.C10.Model"], [model_exprs(c) for c in cases], batch=20) if cases else []
+    mterms = common.coq_eval(["Verif.C10.Model"], [model_exprs(c) for c in cases], batch=8) if cases else []
 
     # ---- tie 2 + oracle: the real macro at run time
     n_rt = 0
